@@ -154,7 +154,18 @@ def make_case(prop, seed, i, tier):
                 if rng.random() < 0.4:
                     muts.append([k, rng.choice(["zero", "half", "minus1", "minus0.3"])])
             t += rng.choice([0, 1, 1, 2, 3])
-            ops.append(dict(muts=muts, t=t))
+            struct = []
+            if rng.random() < 0.35:
+                # the network itself changes between two updates: a new FS link, a new task, a task dropped
+                for _s in range(rng.randint(1, 2)):
+                    r_ = rng.random()
+                    if r_ < 0.5:
+                        struct.append(["edge", rng.random(), rng.random()])
+                    elif r_ < 0.85:
+                        struct.append(["newtask", rng.random(), rng.choice([0.0, 0.5, 1.0, 2.0, 4.0]), rng.random() < 0.5])
+                    else:
+                        struct.append(["setwork", rng.random(), rng.choice([0.5, 1.0, 3.0, 6.0])])
+            ops.append(dict(muts=muts, t=t, struct=struct))
         return dict(prop=prop, i=i, kind="standalone", spec=spec, ops=ops)
     spec = G.gen_fs(rng, max_tasks=12 if big else 9)
     if i % 6 == 1:
@@ -196,6 +207,28 @@ def run_case(case):
         res.absorb(tr, props=("C12",))
         if err is not None:
             res["aborted"] = err
+        elif case["i"] % 4 == 0:
+            # the model is edited in place (work amounts, new FS links) and simulated again on the same objects
+            import random as _random
+            er = _random.Random(case["i"] * 131 + 5)
+            n = len(m.tasks)
+            for _e in range(er.randint(1, 3)):
+                if er.random() < 0.5 and n >= 2:
+                    i_ = er.randrange(1, n)
+                    j_ = er.randrange(0, i_)
+                    if not any(p is m.tasks[j_] for p, d in m.tasks[i_].input_task_list):
+                        m.tasks[i_].append_input_task(m.tasks[j_])
+                else:
+                    m.tasks[er.randrange(n)].default_work_amount = er.choice([0.0, 0.5, 1.0, 2.0, 5.0])
+            _state["checker"] = chk
+            try:
+                from .runner import resimulate
+                tr2, err2 = resimulate(m, spec, lambda started: [])
+            finally:
+                _state["checker"] = None
+            res.count("C12.sim_runs_after_model_edit")
+            if err2 is not None:
+                res["aborted"] = err2
     else:
         I.set_order(I.default_order(spec))
         m = B.build(spec)
@@ -216,6 +249,33 @@ def run_case(case):
                     else:
                         r = max(0.0, r - 0.3)
                     x.remaining_work_amount = r
+                for st in op.get("struct", ()):
+                    n = len(m.tasks)
+                    if st[0] == "edge" and n >= 2:
+                        i_ = 1 + int(st[1] * (n - 1))
+                        j_ = int(st[2] * i_)
+                        if not any(p is m.tasks[j_] for p, d in m.tasks[i_].input_task_list):
+                            m.tasks[i_].append_input_task(m.tasks[j_])     # default: finish-to-start
+                            res.count("C12.structure_edits.edge")
+                    elif st[0] == "newtask":
+                        j_ = int(st[1] * n)
+                        nt = ns.BaseTask("t%d" % n, ID="T%d" % n, default_work_amount=st[2])
+                        nt.initialize()
+                        if st[3]:
+                            nt.append_input_task(m.tasks[j_])
+                        else:
+                            m.tasks[j_].append_input_task(nt)
+                            # keep the index order topological for later "edge" edits: swap positions in m.tasks only
+                        wf.append_child_task(nt)
+                        if st[3]:
+                            m.tasks.append(nt)
+                        else:
+                            m.tasks.insert(j_, nt)
+                        res.count("C12.structure_edits.newtask")
+                    elif st[0] == "setwork":
+                        x = m.tasks[int(st[1] * n)]
+                        x.remaining_work_amount = st[2]
+                        res.count("C12.structure_edits.setwork")
                 wf.update_PERT_data(op["t"])
         finally:
             _state["checker"] = None
